@@ -297,6 +297,9 @@ func (c *Cluster) queryHosts(ctx context.Context, conn *ClientConn, version prim
 		return nil, ClusterInfo{}, errors.New("empty result set returned for system.local")
 	}
 	hosts = c.addHosts(hosts, rs)
+	if len(hosts) == 0 { // The row has no usable address or data center (the reason has been logged)
+		return nil, ClusterInfo{}, errors.New("unable to create a host from the system.local row")
+	}
 	row := rs.Row(0)
 	localDC := hosts[0].DC
 
